@@ -277,6 +277,59 @@ class AtomicWrite(Harness):
         return ok
 
 
+class LinkTarget(Harness):
+    """link_single_color_images: the symbolic link written for a tile points -- relative to the tile's own directory -- at
+    the shared colour file inside the cache directory, for every tile of a sequence of stores at different directory
+    depths (dimension sub-directories); never at a path computed for another tile's depth."""
+    modules = ['mapproxy.cache.path', 'mapproxy.cache.file']
+    functions = ['FileCache.store_tile', 'FileCache._store_single_color_tile', 'FileCache._single_color_tile_location', 'FileCache.tile_location']
+
+    @classmethod
+    def build(cls, L, cfg):
+        from props.C05_cachemap import FileCacheOps
+        return FileCacheOps.build.__func__(cls, L, dict(layout=cfg['layout'], d1='none', link='symlink', op='store_tile'))
+
+    @classmethod
+    def inputs(cls, ctx, cfg):
+        from engine.symex import bool_var
+        v = [int_var(n) for n in ('x1', 'y1', 'z1', 'x2', 'y2', 'z2')]
+        assume(AND(*[AND(t >= 0, t < 2 ** 31) for t in v]))
+        assume(AND(v[2] <= 99, v[5] <= 99))
+        c = [int_var(n) for n in ('r', 'g', 'b')]
+        assume(AND(*[AND(t >= 0, t <= 255) for t in c]))
+        return dict(a=v[:3], b=v[3:], color=c, tape=[bool_var('oracle%d' % i) for i in range(16)])
+
+    @classmethod
+    def native_inputs(cls, cex):
+        return dict(a=[int(x) for x in cex['a']], b=[int(x) for x in cex['b']], color=[int(x) for x in cex['color']],
+                    tape=[bool(x) for x in cex['tape']])
+
+    @classmethod
+    def prop(cls, ctx, cfg, a, b, color, tape):
+        from props.C05_cachemap import FakeTile, _Src, DIMS, path_eq, _always
+        from props.fsmodel import RelPath
+        cache, ros, f = ctx['cache'], ctx['os'], ctx['f']
+        ros.reset(tape)
+        col = tuple(color)
+        f.__dict__['is_single_color_image'] = lambda img: col
+        ok = True
+        n_links = 0
+        for coord, dims in ((tuple(a), DIMS[cfg['first']]), (tuple(b), DIMS[cfg['second']])):
+            del ros.events[:]
+            loc = cache.tile_location(FakeTile(coord), dimensions=dims)
+            shared = cache._single_color_tile_location(col)
+            cache.store_tile(FakeTile(coord, source=_Src()), dimensions=dims)
+            for e in ros.events:
+                if e[0] == 'symlink':
+                    n_links += 1
+                    src, dst = e[1], e[2]
+                    if not isinstance(src, RelPath):
+                        return False
+                    ok = AND(ok, path_eq(dst, loc), path_eq(src.p, shared), path_eq(src.start, ros.path.dirname(loc)),
+                             stays_below(src.p, cache.cache_dir))
+        return AND(ok, n_links == 2)
+
+
 def obligations(tier, seed):
     specs = []
     layouts = ['tc', 'mp', 'tms', 'reverse_tms', 'arcgis', 'quadkey']
@@ -289,6 +342,9 @@ def obligations(tier, seed):
     specs.append(spec(MOD, 'CheckedDimensions', 'checked-dimensions', cfg={}))
     for fail in (None, 'write', 'rename', 'open'):
         specs.append(spec(MOD, 'AtomicWrite', 'atomic-write-stays-in-directory/%s' % (fail or 'ok'), cfg=dict(fail=fail)))
+    for layout, first, second in (('tc', 'time_elev', 'none'), ('tms', 'dim_x', 'time_a')) + ((('mp', 'none', 'time_elev'), ('reverse_tms', 'time_a', 'none')) if tier == 'thorough' else ()):
+        specs.append(spec(MOD, 'LinkTarget', 'single-colour-link-target/%s/%s-then-%s' % (layout, first, second), cfg=dict(layout=layout, first=first, second=second), cost=10))
+    specs.append(spec(MOD, 'LinkTarget', 'twin/LinkTarget', kind='witness', cfg=dict(layout='tc', first='time_elev', second='none')))
     specs.append(spec(MOD, 'AtomicWrite', 'twin/AtomicWrite', kind='witness', cfg={}))
     specs.append(spec(MOD, 'CachePath', 'twin/CachePath', kind='witness', cfg=dict(layout='tc', keys='time')))
     specs.append(spec(MOD, 'CheckedDimensions', 'twin/CheckedDimensions', kind='witness', cfg={}))
@@ -306,8 +362,10 @@ META = dict(
                 'the cache directory (prefix root/, no ".." component, no backslash). Lock file names are built from the '
                 'cache id and integers only and are injective per tile; the tile services pass only configured dimension '
                 'values (or the default) on to the tile manager; write_atomic creates, renames and removes files only in the '
-                'directory of its target (free file name, os/tempfile/random replaced by recording stubs, error paths included).',
-    functions=sorted(set(CachePath.functions + LockName.functions + CheckedDimensions.functions + AtomicWrite.functions)),
+                'directory of its target (free file name, os/tempfile/random replaced by recording stubs, error paths included); the symbolic '
+                'link of a single-colour tile points, relative to that tile\'s own directory, at the shared colour file inside the cache '
+                'directory -- for two successive stores at different dimension depths.',
+    functions=sorted(set(CachePath.functions + LockName.functions + CheckedDimensions.functions + AtomicWrite.functions + LinkTarget.functions)),
     bounds='dimension values: arbitrary strings of length <= 8 (1-2 values); dimension keys from an adversarial family of 5 '
            '(incl. keys containing "/" and ".."); coordinates >= 0 (in-grid is C16\'s obligation)',
     outside='which request parameters are recognised as dimensions (regex, C code), multiapp project names, S3/Azure key construction, '
